@@ -4,6 +4,11 @@ E3 toy-sign / toy-verify: the whole state space of a toy instantiation of pecc.p
    digest class, nonce; every (P, z, r, s) tuple) against the reference ECDSA on the same curve.
 E1 real-sign: boundary secrets x digests on secp256k1: exact RFC 6979 signature, low S, DER.
 E1 real-forge: deviation-bounded forgery catalogue and crafted corner cases on secp256k1.
+E1 real-retry: RFC 6979 retry branch (candidate 0 / >= n) through a seam on the candidate conversion.
+E1 real-keysrc: public keys from every constructor / parser / derivation (and the point at infinity, which
+   is no key) x signature objects from Signature.parse.
+E1 real-scalars: tuples built for prescribed verification scalars u, v; doubling and infinity inside verify.
+E2 key-history: other operations on the key / point objects before sign.
 """
 import itertools
 
@@ -17,6 +22,22 @@ THOROUGH_TOYS = [(43, 31), (79, 67), (67, 79)]
 
 def accepted(v):
     return (not isinstance(v, Rejected)) and bool(v)
+
+
+def _degenerate(res, c, Q, z, sig, point, prefix, vc):
+    """Nonce for which ECDSA defines no signature (r == 0 or s == 0), forced through the nonce seam.  Allowed:
+    sign raises | sign returns something the library's verify rejects | sign returns a signature the reference
+    accepts (it redrew the nonce).  Forbidden: an invalid signature that the library's own verify accepts."""
+    if isinstance(sig, Rejected):
+        res.ok("degenerate nonce: sign refuses")
+        return
+    r, s = getattr(sig, "r", None), getattr(sig, "s", None)
+    if not accepted(attempt(point.verify, z, sig)):
+        res.ok("degenerate nonce: returned signature is rejected by verify")
+    elif c.ecdsa_verify(Q, z, r, s):
+        res.ok("degenerate nonce: sign returned a valid signature")
+    else:
+        res.violation(f"{prefix}/degenerate-nonce/invalid-signature-accepted", vc, (r, s), "sign raises, or verify rejects, or the signature is valid", "for a nonce with r == 0 or s == 0 sign returns an invalid signature that verify accepts")
 
 
 # ------------------------------------------------------------------ toy engines
@@ -63,7 +84,9 @@ def run_toy_sign(case):
                 exp = c.ecdsa_sign_k(d, z, k)
                 sig = attempt(priv.sign, z)
                 if exp is None:
-                    res.ok("degenerate(r=0 or s=0): not asserted")
+                    # the nonce gives r == 0 or s == 0 and the seam cannot redraw it: sign may refuse, or return
+                    # something verify rejects, or return a signature that really is valid — nothing else
+                    _degenerate(res, c, c.mulg(d), z, sig, priv.point, "C01/toy-sign", vc([z, k]))
                     continue
                 got = None if isinstance(sig, Rejected) else (sig.r, sig.s)
                 if got != exp:
@@ -159,6 +182,10 @@ def real_digests(seed, tier):
     z = [0, 1, N - 1, N, N + 1, N // 2, 2**255, 2**256 - 1]
     nf = 2 if tier == "quick" else 6
     z += [filler_int(seed, "c01digest", i, 0, 2**256 - 1) for i in range(nf)]
+    # digests in [N, 2^256): a uniformly drawn filler never lands there (the interval has measure ~2^-128)
+    if tier == "thorough":
+        z += [N + 2**128, ec.SECP.p]
+    z += [filler_int(seed, "c01digest>=n", i, N, 2**256 - 1) for i in range(1 if tier == "quick" else 3)]
     return z
 
 
@@ -201,6 +228,14 @@ def _real_sign_one(pecc, priv, case):
         res.ok("verifies")
     if got[1] > N // 2:
         res.violation("C01/real-sign/high-s", vc, got, exp, "s not low")
+    if z >= N:
+        # z and z - N are the same digest for ECDSA (bits2octets and the signing equation both reduce it once)
+        low = attempt(priv.sign, z - N)
+        got_low = None if isinstance(low, Rejected) else (low.r, low.s)
+        if got_low != exp:
+            res.violation("C01/real-sign/z>=n-not-equivalent-to-z-n", vc, got_low, exp, "sign(z - N) differs from sign(z) for a digest z >= N")
+        else:
+            res.ok("sign(z-n)==sign(z)", nontrivial=("sign-equiv", case["d"], case["z"]))
     der = attempt(sig.der)
     if der != ec.der_sig(*exp):
         res.violation("C01/real-sign/der-encode", vc, der, ec.der_sig(*exp), "DER encoding differs from strict DER")
@@ -217,12 +252,44 @@ DER_VALUES = [1, 0x7F, 0x80, 0xFF, 0x100, 2**248 - 1, 2**248, 2**255 - 1, 2**255
 
 
 def gen_real_der(tier, seed):
-    return [{"r": str(r), "s": str(s)} for r in DER_VALUES for s in DER_VALUES]
+    cases = [{"r": str(r), "s": str(s)} for r in DER_VALUES for s in DER_VALUES]
+    # every integer byte length the encoder can be asked for: one case per bit length b in 1..256
+    cases += [{"bits": b} for b in range(1, 257)]
+    return cases
+
+
+def der_bitlen_values(b):
+    return sorted(v for v in {2 ** (b - 1), 2 ** (b - 1) + 1, 2**b - 1} if 1 <= v < N and v.bit_length() == b)
+
+
+def run_real_der_bits(case):
+    from buidl import pecc
+
+    res = Res()
+    b = case["bits"]
+    vc = {"engine": "real-der", "case": case}
+    for v in der_bitlen_values(b):
+        pad = "msb-set" if v.bit_length() % 8 == 0 else "msb-clear"
+        for w in (1, N - 1):
+            for r, s in ((v, w), (w, v)):
+                exp = ec.der_sig(r, s)
+                der = attempt(pecc.Signature(r, s).der)
+                if der != exp:
+                    res.violation(f"C01/real-der/bitlen/encode/{pad}", vc, {"r": r, "s": s, "der": der}, exp, "der() is not the strict DER encoding (value of the given bit length)")
+                    continue
+                back = attempt(pecc.Signature.parse, exp)
+                if isinstance(back, Rejected) or (back.r, back.s) != (r, s):
+                    res.violation(f"C01/real-der/bitlen/parse/{pad}", vc, repr(back), (r, s), "parse(der) does not return (r, s)")
+                    continue
+                res.ok("der==ref&roundtrip", nontrivial=("bits", r, s))
+    return res
 
 
 def run_real_der(case):
     from buidl import pecc
 
+    if "bits" in case:
+        return run_real_der_bits(case)
     res = Res()
     r, s = int(case["r"]), int(case["s"])
     exp = ec.der_sig(r, s)
@@ -265,6 +332,9 @@ def forge_catalogue(other_pub, c):
         "swap-rs": lambda Q, z, r, s: (Q, z, s, r),
         "-s": lambda Q, z, r, s: (Q, z, r, -s),
         "-r": lambda Q, z, r, s: (Q, z, -r, s),
+        # the same digest class mod N: the reference says validity is unchanged (skipped when outside [0, 2^256))
+        "z+n": lambda Q, z, r, s: (Q, z + N, r, s),
+        "z-n": lambda Q, z, r, s: (Q, z - N, r, s),
     }
 
 
@@ -287,7 +357,25 @@ def gen_real_forge(tier, seed):
         cases.append({"craft": "xR>=n", "j": j})
     for j in range(2 if tier == "quick" else 6):
         cases.append({"craft": "s-in-float-window", "j": j})
+    for j in range(len(RAW_S) * (1 if tier == "quick" else 3)):
+        cases.append({"craft": "raw-s-boundary", "j": j})
+    for j in range(2 if tier == "quick" else 6):
+        cases.append({"craft": "degenerate-s0", "j": j})
     return cases
+
+
+# raw (pre-normalisation) values of s at the low-S boundary and at the ends of [1, n-1]
+RAW_S = [N // 2, N // 2 - 1, N // 2 + 1, 1, 2, N - 1, N - 2]
+
+
+def _forced_nonce_sign(pecc, d, z, k):
+    old = pecc.PrivateKey.deterministic_k
+    pecc.PrivateKey.deterministic_k = lambda self, zz: k
+    try:
+        priv = pecc.PrivateKey(d)
+        return priv, attempt(priv.sign, z)
+    finally:
+        pecc.PrivateKey.deterministic_k = old
 
 
 def run_real_forge(case):
@@ -343,6 +431,43 @@ def run_real_forge(case):
         else:
             res.ok("low-s in float window", nontrivial=("window", j))
         return res
+    if case.get("craft") == "raw-s-boundary":
+        # nonce seam: (d, k, z) chosen so that the raw s = (z + r d) / k is exactly RAW_S[j]; it must come out as
+        # min(s, n - s): N // 2 and below untouched, N // 2 + 1 and above negated
+        j = case["j"]
+        d = filler_int(j // len(RAW_S), "b-d", 0, 1, N - 1)
+        k = filler_int(j // len(RAW_S), "b-k", 0, 1, N - 1)
+        s_raw = RAW_S[j % len(RAW_S)]
+        r = c.mulg(k)[0] % N
+        z = (s_raw * k - r * d) % N
+        exp = c.ecdsa_sign_k(d, z, k)
+        assert exp == (r, min(s_raw, N - s_raw))
+        priv, sig = _forced_nonce_sign(pecc, d, z, k)
+        got = None if isinstance(sig, Rejected) else (sig.r, sig.s)
+        if got != exp:
+            if got and got == (r, N - exp[1]):
+                cls = "high-s-kept" if s_raw > N // 2 else "low-s-flipped"
+            else:
+                cls = "other"
+            res.violation(f"C01/real-forge/raw-s-boundary/{cls}", vc, got, exp, "raw s at the low-S boundary / at the ends of [1, n-1] is not normalised to min(s, n - s)")
+        elif not accepted(attempt(priv.point.verify, z, sig)):
+            res.violation("C01/real-forge/raw-s-boundary/own-signature-rejected", vc, False, True, "verify rejects the signature sign produced")
+        else:
+            res.ok("raw s boundary -> low s, verifies", nontrivial=("raw-s", j))
+        return res
+    if case.get("craft") == "degenerate-s0":
+        # nonce seam: z = -r d (mod n) makes s == 0; no signature exists for this nonce (see _degenerate)
+        j = case["j"]
+        d = filler_int(j, "g-d", 0, 1, N - 1)
+        k = filler_int(j, "g-k", 0, 1, N - 1)
+        r = c.mulg(k)[0] % N
+        z = (-r * d) % N
+        if j % 2 and z + N < 2**256:
+            z += N
+        assert c.ecdsa_sign_k(d, z, k) is None
+        priv, sig = _forced_nonce_sign(pecc, d, z, k)
+        _degenerate(res, c, c.mulg(d), z, sig, priv.point, "C01/real-forge", vc)
+        return res
     d, z = int(case["d"]), int(case["z"])
     r, s = c.ecdsa_sign(d, z)
     other = c.mulg((d * 7 + 11) % N or 5)
@@ -367,6 +492,376 @@ def run_real_forge(case):
             res.violation(f"C01/real-forge/{kind}/{devs}", vc, got, exp, "verify disagrees with the ECDSA predicate on the real curve (valid tuple verified first on the same point object)")
         else:
             res.ok(f"verify==ref({exp})", nontrivial=(case["d"], case["z"], devs) if devl else None, sample={"d": case["d"], "z": case["z"], "devs": devl} if len(devl) == 1 else None)
+    return res
+
+
+# ------------------------------------------------------------------ RFC 6979 retry branch (candidate out of range)
+def rfc6979_k_forced(d, z, forced):
+    """RFC 6979 section 3.2 (HMAC-SHA256, qlen = 256) where the i-th candidate T is replaced by forced[i] for
+    i < len(forced): step h.3 accepts a candidate in [1, q-1], otherwise K = HMAC_K(V || 0x00), V = HMAC_K(V)."""
+    import hashlib
+    import hmac
+
+    mac = lambda key, msg: hmac.new(key, msg, hashlib.sha256).digest()
+    h1 = (z - N if z >= N else z).to_bytes(32, "big")
+    x = d.to_bytes(32, "big")
+    V, K = b"\x01" * 32, b"\x00" * 32
+    K = mac(K, V + b"\x00" + x + h1)
+    V = mac(K, V)
+    K = mac(K, V + b"\x01" + x + h1)
+    V = mac(K, V)
+    i = 0
+    while True:
+        V = mac(K, V)
+        k = forced[i] if i < len(forced) else int.from_bytes(V, "big")
+        i += 1
+        if 1 <= k < N:
+            return k
+        K = mac(K, V + b"\x00")
+        V = mac(K, V)
+
+
+RETRY_VALUES = {"0": 0, "n": N, "n+1": N + 1, "max": 2**256 - 1, "n-1": N - 1, "1": 1}
+RETRY_PREFIXES = [[], ["0"], ["n"], ["n+1"], ["max"], ["n-1"], ["1"], ["0", "n"], ["n", "0", "max"], ["max", "n-1"]]
+RETRY_PREFIXES_THOROUGH = [["0", "0", "0"], ["n+1", "max", "n", "0"], ["0", "1"], ["max", "max"]]
+
+
+def gen_real_retry(tier, seed):
+    secrets = [1, N - 1, filler_int(seed, "c01rsecret", 0, 1, N - 1)]
+    digests = [0, N, 2**256 - 1, filler_int(seed, "c01rdigest", 0, 0, 2**256 - 1)]
+    prefixes = list(RETRY_PREFIXES)
+    if tier == "thorough":
+        secrets += [2, 2**255] + [filler_int(seed, "c01rsecret", i, 1, N - 1) for i in (1, 2)]
+        digests += [N - 1, N + 1] + [filler_int(seed, "c01rdigest", i, 0, 2**256 - 1) for i in (1, 2)]
+        prefixes += RETRY_PREFIXES_THOROUGH
+    return [{"d": str(d), "z": str(z), "forced": p} for d in secrets for z in digests for p in prefixes]
+
+
+def run_real_retry(case):
+    from buidl import pecc
+
+    res = Res()
+    d, z = int(case["d"]), int(case["z"])
+    forced = [RETRY_VALUES[nm] for nm in case["forced"]]
+    vc = {"engine": "real-retry", "case": case}
+    exp_k = rfc6979_k_forced(d, z, forced)
+    exp_sig = ec.SECP.ecdsa_sign_k(d, z, exp_k)
+    orig = getattr(pecc, "big_endian_to_int", None)
+    if orig is None:
+        res.skip("seam missing: pecc has no module-level big_endian_to_int")
+        return res
+    priv = pecc.PrivateKey(d)
+
+    def under_seam(fn, *a):
+        cnt = {"i": 0}
+
+        def seam(b):
+            i = cnt["i"]
+            cnt["i"] += 1
+            return forced[i] if i < len(forced) else orig(b)
+
+        pecc.big_endian_to_int = seam
+        try:
+            return attempt(fn, *a), cnt["i"]
+        finally:
+            pecc.big_endian_to_int = orig
+
+    got_k, used = under_seam(priv.deterministic_k, z)
+    if used == 0:
+        res.skip("seam not reached: deterministic_k does not convert its candidate through pecc.big_endian_to_int")
+        return res
+    kind = "first-candidate" if not forced else ("boundary-accept" if forced[0] in (1, N - 1) and len(forced) == 1 else "retry")
+    if got_k != exp_k:
+        if isinstance(got_k, Rejected):
+            cls = "rejected"
+        elif not (isinstance(got_k, int) and 1 <= got_k < N):
+            cls = "nonce-out-of-range"
+        elif forced and got_k in forced:
+            cls = "in-range-candidate-handling"
+        else:
+            cls = "stream-after-rejected-candidate-differs"
+        res.violation(f"C01/real-retry/{kind}/{cls}", vc, got_k, exp_k, "deterministic_k differs from RFC 6979 3.2 step h when candidates are forced out of range (K = HMAC_K(V || 00), V = HMAC_K(V), redraw)")
+        return res
+    res.ok(f"k==rfc6979({kind})", nontrivial=("k", case["d"], case["z"], tuple(case["forced"])), sample=case if forced else None)
+    sig, _ = under_seam(priv.sign, z)
+    got = None if isinstance(sig, Rejected) else (sig.r, sig.s)
+    if exp_sig is None:
+        res.skip("forced nonce gives r == 0 or s == 0")
+    elif got != exp_sig:
+        res.violation(f"C01/real-retry/{kind}/sign", vc, got, exp_sig, "sign() under the same forced candidates is not the reference signature for the RFC 6979 nonce")
+    else:
+        res.ok("sign==ref under forced candidates")
+    return res
+
+
+# ------------------------------------------------------------------ public-key sources x signature-object sources
+KEYSRC = ["priv.point", "xy", "sec33", "sec65", "xonly", "even_point", "combine", "neg"]
+KEYSRC_GROUP = {"priv.point": "constructed", "xy": "constructed", "sec33": "parsed", "sec65": "parsed", "xonly": "parsed", "even_point": "derived", "combine": "derived", "neg": "derived"}
+INF_SRC = ["S256Point(None,None)", "parse(32 zero bytes)", "P+(-P)", "n*G"]
+
+
+def build_point(pecc, c, src, d):
+    """Returns (library point object, reference point it must denote)."""
+    Q = c.mulg(d)
+    even = Q if Q[1] % 2 == 0 else c.neg(Q)
+    if src == "priv.point":
+        return pecc.PrivateKey(d).point, Q
+    if src == "xy":
+        return pecc.S256Point(Q[0], Q[1]), Q
+    if src == "sec33":
+        return pecc.S256Point.parse(c.sec(Q, True)), Q
+    if src == "sec65":
+        return pecc.S256Point.parse(c.sec(Q, False)), Q
+    if src == "xonly":
+        return pecc.S256Point.parse(Q[0].to_bytes(32, "big")), even
+    if src == "even_point":
+        return pecc.S256Point(Q[0], Q[1]).even_point(), even
+    if src == "combine":
+        A = c.add(Q, c.neg(c.g))
+        a = pecc.S256Point(None, None) if A is None else pecc.S256Point(A[0], A[1])
+        return pecc.S256Point.combine([a, pecc.S256Point(c.g[0], c.g[1])]), Q
+    if src == "neg":
+        M = c.neg(Q)
+        return -1 * pecc.S256Point(M[0], M[1]), Q
+    raise ValueError(src)
+
+
+def build_infinity(pecc, c, src):
+    if src == "S256Point(None,None)":
+        return pecc.S256Point(None, None)
+    if src == "parse(32 zero bytes)":
+        return pecc.S256Point.parse(b"\x00" * 32)
+    if src == "P+(-P)":
+        P = c.mulg(5)
+        M = c.neg(P)
+        return pecc.S256Point.combine([pecc.S256Point(P[0], P[1]), pecc.S256Point(M[0], M[1])])
+    if src == "n*G":
+        return N * pecc.S256Point(c.g[0], c.g[1])
+    raise ValueError(src)
+
+
+KEYSRC_DEVS = ["valid", "n-s", "z^bit0", "s+1", "r+n"]
+
+
+def gen_real_keysrc(tier, seed):
+    if tier == "quick":
+        secrets = [N - 1, filler_int(seed, "c01ksecret", 0, 1, N - 1)]  # G has even y, (N-1)G odd y
+        digests = [filler_int(seed, "c01kdigest", 0, 0, 2**256 - 1)]
+    else:
+        secrets = [1, N - 1, 2**128 + 1] + [filler_int(seed, "c01ksecret", i, 1, N - 1) for i in range(2)]
+        digests = [0, N, 2**256 - 1] + [filler_int(seed, "c01kdigest", i, 0, 2**256 - 1) for i in range(2)]
+    cases = [{"d": str(d), "z": str(z), "keysrc": k} for d in secrets for z in digests for k in KEYSRC]
+    cases += [{"inf": src, "j": j} for src in INF_SRC for j in range(2 if tier == "quick" else 5)]
+    return cases
+
+
+def run_real_keysrc(case):
+    from buidl import pecc
+
+    res = Res()
+    c = ec.SECP
+    vc = {"engine": "real-keysrc", "case": case}
+    if "inf" in case:
+        # the point at infinity is not a public key: for any z and s, r = x((z/s) G) mod n satisfies the verification
+        # equation "x(u G + v O) == r" without any secret; it must be rejected like every other tuple under O
+        j = case["j"]
+        O = attempt(build_infinity, pecc, c, case["inf"])
+        if isinstance(O, Rejected):
+            res.ok("infinity not constructible from this source (rejected)")
+            return res
+        z = [N + 3, 2**256 - 1][j] if j < 2 else filler_int(j, "inf-z", 0, 1, 2**256 - 1)
+        s = [1, N - 1][j] if j < 2 else filler_int(j, "inf-s", 0, 1, N - 1)
+        R = c.mulg(z * pow(s, -1, N) % N)
+        r = R[0] % N
+        dh = filler_int(j, "inf-d", 0, 1, N - 1)
+        hr, hs = c.ecdsa_sign(dh, z)
+        for name, rr, ss in (("crafted r=x((z/s)G)", r, s), ("crafted, n-s", r, N - s), ("honest signature of another key", hr, hs)):
+            exp = c.ecdsa_verify(None, z, rr, ss)
+            assert exp is False
+            got = accepted(attempt(O.verify, z, pecc.Signature(rr, ss)))
+            if got:
+                res.violation("C01/real-keysrc/accepts-forgery/infinity-pubkey", vc, {"tuple": name, "accepted": True}, False, "verify under the point at infinity as public key accepts a signature (computable without any secret)")
+            else:
+                res.ok("infinity pubkey: rejected", nontrivial=("inf", case["inf"], j, name))
+        return res
+    d, z, src = int(case["d"]), int(case["z"]), case["keysrc"]
+    built = attempt(build_point, pecc, c, src, d)
+    grp = KEYSRC_GROUP[src]
+    if isinstance(built, Rejected):
+        res.violation(f"C01/real-keysrc/rejects-valid/{grp}-key", vc, repr(built), "a point object", "a valid public key cannot be obtained from this source")
+        return res
+    point, Qexp = built
+    d_eff = d if Qexp == c.mulg(d) else N - d  # the secret of the point this source denotes (x-only sources drop the sign of y)
+    assert c.mulg(d_eff) == Qexp
+    r, s = c.ecdsa_sign(d_eff, z)
+    for dev in KEYSRC_DEVS:
+        zz, rr, ss = {"valid": (z, r, s), "n-s": (z, r, N - s), "z^bit0": (z ^ 1, r, s), "s+1": (z, r, s + 1), "r+n": (z, r + N, s)}[dev]
+        exp = c.ecdsa_verify(Qexp, zz, rr, ss)
+        obs = {}
+        for sigsrc in ("ints", "parsed"):
+            if sigsrc == "ints":
+                sig = pecc.Signature(rr, ss)
+            else:
+                sig = attempt(pecc.Signature.parse, ec.der_sig(rr, ss))
+                if isinstance(sig, Rejected):
+                    obs[sigsrc] = False  # a signature that cannot be decoded is a rejected signature
+                    continue
+            obs[sigsrc] = accepted(attempt(point.verify, zz, sig))
+        for sigsrc in ("ints", "parsed"):
+            if obs[sigsrc] == exp:
+                res.ok(f"verify==ref({exp})", nontrivial=(case["d"], case["z"], src, dev, sigsrc), sample=dict(case, dev=dev) if dev == "valid" and sigsrc == "parsed" else None)
+                continue
+            kind = "accepts-forgery" if obs[sigsrc] else "rejects-valid"
+            cls = f"{grp}-key" if sigsrc == "ints" or obs["ints"] != exp else "decoded-signature-object"
+            res.violation(f"C01/real-keysrc/{kind}/{cls}", vc, {"dev": dev, "sig": sigsrc, "accepted": obs[sigsrc]}, exp, "verify disagrees with the ECDSA predicate for a public key from this source / a signature object from Signature.parse (all deviations run on ONE point object)")
+    return res
+
+
+# ------------------------------------------------------------------ prescribed verification scalars
+SCALARS_QUICK = [1, 2, N - 1, (N - 1) // 2, 2**128, 2**255]
+SCALARS_THOROUGH = SCALARS_QUICK + [3, N - 2, (N + 1) // 2, 2**64 - 1, 2**192]
+SCALAR_DEVS = ["valid", "z+n (only when < 2^256)", "n-s", "z^bit0", "s+1", "r+1"]
+
+
+def gen_real_scalars(tier, seed):
+    B = SCALARS_QUICK if tier == "quick" else SCALARS_THOROUGH
+    keys = [filler_int(seed, "c01usecret", 0, 1, N - 1)]
+    if tier == "thorough":
+        keys = [1, N - 1] + keys + [filler_int(seed, "c01usecret", 1, 1, N - 1)]
+    cases = [{"d": str(d), "u": str(u), "v": str(v)} for d in keys for u in [0] + B for v in B]
+    nj = 2 if tier == "quick" else 6
+    cases += [{"special": "doubling", "j": j} for j in range(nj)]
+    cases += [{"special": "infinity-total", "j": j} for j in range(nj)]
+    return cases
+
+
+def run_real_scalars(case):
+    from buidl import pecc
+
+    res = Res()
+    c = ec.SECP
+    vc = {"engine": "real-scalars", "case": case}
+
+    def check(point, Q, tuples, cls):
+        for dev, zz, rr, ss in tuples:
+            if not (0 <= zz < 2**256):
+                res.skip("digest outside [0, 2^256)")
+                continue
+            exp = c.ecdsa_verify(Q, zz, rr, ss)
+            got = accepted(attempt(point.verify, zz, pecc.Signature(rr, ss)))
+            if got != exp:
+                kind = "accepts-forgery" if got else "rejects-valid"
+                res.violation(f"C01/real-scalars/{kind}/{cls}", vc, {"dev": dev, "accepted": got}, exp, "verify disagrees with the ECDSA predicate on a tuple built for prescribed scalars u = z/s, v = r/s")
+            else:
+                res.ok(f"verify==ref({exp})", nontrivial=(repr(case), dev), sample=dict(case, dev=dev) if dev == "valid" else None)
+
+    def devs(z, r, s):
+        t = [("valid", z, r, s), ("n-s", z, r, N - s), ("z^bit0", z ^ 1, r, s), ("s+1", z, r, s + 1), ("r+1", z, r + 1, s)]
+        if z + N < 2**256:  # z < N here, so this is the case only for z < 2^256 - N (e.g. u == 0)
+            t.append(("z+n", z + N, r, s))
+        return t
+
+    if case.get("special") == "doubling":
+        # u G == v Q (the addition inside verify is a doubling): z = r d, s = 2 z / k  =>  u = v d = k / 2
+        j = case["j"]
+        d = [1, N - 1][j] if j < 2 else filler_int(j, "dbl-d", 0, 1, N - 1)
+        k = filler_int(j, "dbl-k", 0, 1, N - 1)
+        r = c.mulg(k)[0] % N
+        z = r * d % N
+        s = 2 * z * pow(k, -1, N) % N
+        Q = c.mulg(d)
+        assert c.mul(z * pow(s, -1, N) % N, c.g) == c.mul(r * pow(s, -1, N) % N, Q) and c.ecdsa_verify(Q, z, r, s)
+        check(pecc.S256Point(Q[0], Q[1]), Q, devs(z, r, s), "doubling")
+        return res
+    if case.get("special") == "infinity-total":
+        # u G == -(v Q): z = -r d; the sum is the point at infinity for EVERY s, nothing may be accepted
+        j = case["j"]
+        d = [1, N - 1][j] if j < 2 else filler_int(j, "it-d", 0, 1, N - 1)
+        k = filler_int(j, "it-k", 0, 1, N - 1)
+        r = c.mulg(k)[0] % N
+        z = (-r * d) % N
+        Q = c.mulg(d)
+        tuples = [(f"s={nm}", z, r, s) for nm, s in (("1", 1), ("2", 2), ("n-1", N - 1), ("filler", filler_int(j, "it-s", 0, 1, N - 1)))]
+        if z + N < 2**256:
+            tuples.append(("z+n", z + N, r, 1))
+        assert all(c.lin(zz * pow(ss, -1, N) % N, c.g, rr * pow(ss, -1, N) % N, Q) is None for _, zz, rr, ss in tuples)
+        check(pecc.S256Point(Q[0], Q[1]), Q, tuples, "infinity-total")
+        return res
+    d, u, v = int(case["d"]), int(case["u"]), int(case["v"])
+    Q = c.mulg(d)
+    R = c.lin(u, c.g, v, Q)
+    if R is None or R[0] % N == 0:
+        res.skip("no signature has these scalars (u G + v Q is the point at infinity)")
+        return res
+    r = R[0] % N
+    s = r * pow(v, -1, N) % N
+    z = u * s % N
+    assert c.ecdsa_verify(Q, z, r, s)
+    check(pecc.S256Point(Q[0], Q[1]), Q, devs(z, r, s), "prescribed-scalars")
+    return res
+
+
+# ------------------------------------------------------------------ E2: operation histories on the key / point object
+HISTORY_OPS = {
+    "schnorr": lambda p: p.sign_schnorr(b"\x07" * 32),
+    "even_secret": lambda p: p.even_secret(),
+    "tweaked": lambda p: p.tweaked_key(),
+    "pt.even": lambda p: p.point.even_point(),
+    "pt.tweaked": lambda p: p.point.tweaked_key(),
+    "pt.sec": lambda p: (p.point.sec(), p.point.sec(False), p.point.xonly()),
+    "wif": lambda p: p.wif(),
+    "pt.neg": lambda p: -1 * p.point,
+    "pt.add": lambda p: p.point + 5,
+    "pt.addr": lambda p: (p.point.address(), p.point.p2wpkh_address(), p.point.p2tr_address()),
+    "ecdsa": lambda p: p.point.verify(5, p.sign(5)),
+}
+HISTORY_OPS_QUICK = ["schnorr", "even_secret", "tweaked", "pt.even", "pt.tweaked", "pt.sec", "wif"]
+
+
+def history_ops(tier):
+    return HISTORY_OPS_QUICK if tier == "quick" else list(HISTORY_OPS)
+
+
+def gen_key_history(tier, seed):
+    ops = history_ops(tier)
+    if tier == "quick":
+        # (N-1)G has odd y (the parity-dependent code paths run): all sequences of length <= 2; 2G has even y: length <= 1
+        plan = [(N - 1, 2), (2, 1)]
+        zs = [filler_int(seed, "c01hdigest", 0, 0, 2**256 - 1)]
+    else:
+        plan = [(d, 2) for d in (1, 2, N - 1, N - 2, 2**255, filler_int(seed, "c01hsecret", 0, 1, N - 1))]
+        zs = [0, N, filler_int(seed, "c01hdigest", 0, 0, 2**256 - 1)]
+    cases = []
+    for d, maxlen in plan:
+        seqs = [[]] + [[a] for a in ops] + ([[a, b] for a in ops for b in ops] if maxlen >= 2 else [])
+        for z in zs:
+            cases += [{"d": str(d), "z": str(z), "seq": q} for q in seqs]
+    return cases
+
+
+def run_key_history(case):
+    from buidl import pecc
+
+    res = Res()
+    c = ec.SECP
+    d, z, seq = int(case["d"]), int(case["z"]), case["seq"]
+    exp = c.ecdsa_sign(d, z)
+    vc = {"engine": "key-history", "case": case}
+    priv = pecc.PrivateKey(d)
+    res.states += 1
+    for nm in seq:
+        attempt(HISTORY_OPS[nm], priv)  # the operation's own result is another property's business
+        res.states += 1
+        res.transitions += 1
+    sig = attempt(priv.sign, z)
+    res.transitions += 1
+    got = None if isinstance(sig, Rejected) else (sig.r, sig.s)
+    if got != exp:
+        res.violation("C01/key-history/signature-changed", vc, got, exp, "after other operations on the same key / point objects sign(z) is no longer the RFC 6979 signature of the original secret")
+    elif not accepted(attempt(priv.point.verify, z, sig)):
+        res.violation("C01/key-history/own-signature-rejected", vc, False, True, "after other operations on the same key / point objects the key's own point rejects the key's signature")
+    else:
+        res.ok("history: sign==rfc6979&verifies", nontrivial=(case["d"], case["z"], tuple(seq)), sample=case if len(seq) == 2 else None)
     return res
 
 
@@ -424,16 +919,58 @@ def engines(tier, seed):
                 rule=f"toy curve p={toy[0]} n={toy[1]}: every public key x digest class x (r, s) in [0, n+2]^2 (thorough [0, 2n+1]^2): verify() == ECDSA predicate incl. range checks, both directions",
             )
         )
+    ncat = len(forge_catalogue(None, ec.SECP))
+    nops = len(history_ops(tier))
     es += [
-        Engine("real-sign", gen_real_sign, run_real_sign, kind="E1", rule="secp256k1: boundary secrets x boundary digests (+ seed fillers): exact RFC 6979 signature, verifies, low S, strict DER round trip"),
-        Engine("real-der", gen_real_der, run_real_der, kind="E1", rule="DER encoder/decoder on all (r, s) pairs of a 10-value boundary set (byte-length and high-bit boundaries)"),
+        Engine(
+            "real-sign",
+            gen_real_sign,
+            run_real_sign,
+            kind="E1",
+            rule="secp256k1: boundary secrets x boundary digests (+ seed fillers; digests >= n: n, n+1, 2^256-1 and fillers drawn from [n, 2^256); thorough also n+2^128 and p): exact RFC 6979 signature, verifies, low S, strict DER round trip; for every digest z >= n also sign(z - n) == sign(z)",
+        ),
+        Engine(
+            "real-der",
+            gen_real_der,
+            run_real_der,
+            kind="E1",
+            rule="DER encoder/decoder on all (r, s) pairs of a 10-value boundary set (byte-length and high-bit boundaries); and for every bit length b in 1..256 the values {2^(b-1), 2^(b-1)+1, 2^b-1} below n paired with {1, n-1} in both positions: der() == strict DER of the reference, parse(der) == (r, s)",
+        ),
         Engine(
             "real-forge",
             gen_real_forge,
             run_real_forge,
             kind="E1",
-            rule="secp256k1: valid tuples x every single deviation of a 23-entry forgery catalogue (thorough: all pairs for 4 bases) compared with the reference predicate; crafted valid signatures with x(R) >= n (key recovery) and raw s in (n//2, 2^255] (nonce seam)",
+            rule=f"secp256k1: valid tuples x every single deviation of a {ncat}-entry forgery catalogue incl. z+n / z-n (same digest class, validity must not change) (thorough: all pairs for 4 bases) compared with the reference predicate; crafted valid signatures with x(R) >= n (key recovery) and raw s in (n//2, 2^255] (nonce seam); nonce seam with raw s in {{n//2, n//2-1, n//2+1, 1, 2, n-1, n-2}} -> (r, min(s, n-s)) that verifies; nonce seam with z = -r d (s == 0): sign raises, or verify rejects the result, or the result is valid for the reference",
         ),
         Engine("real-msg", gen_real_msg, run_real_msg, kind="E1", rule="sign_message/verify_message over message lengths {0,1,32,1000} equal sign/verify on the double-SHA256 digest"),
+        Engine(
+            "real-retry",
+            gen_real_retry,
+            run_real_retry,
+            kind="E1",
+            rule="RFC 6979 3.2 step h retry branch through a harness-only seam (pecc.big_endian_to_int replaced during the call, restored afterwards): the first candidates are forced to every prefix of a fixed list over {0, n, n+1, 2^256-1, n-1, 1} (quick 10 prefixes of length <= 3, thorough 14 of length <= 4) x secrets {1, n-1, filler,..} x digests {0, n, 2^256-1, filler,..}: deterministic_k == the spec formula with the same forced candidates, and sign() under the same seam == reference signature for that nonce; skipped (counted) when the seam is not reached",
+        ),
+        Engine(
+            "real-keysrc",
+            gen_real_keysrc,
+            run_real_keysrc,
+            kind="E1",
+            rule="secp256k1: secrets x digests x public-key source {PrivateKey.point, S256Point(x,y), parse(sec33), parse(sec65), parse(x-only), even_point(), combine([Q-G, G]), -1*(-Q)} x deviation {valid, n-s, z^bit0, s+1, r+n} x signature object {Signature(r,s), Signature.parse(reference DER)} on ONE point object per case: verify == reference predicate for the point the source denotes (x-only sources: the even-y point and its secret); point at infinity from {S256Point(None,None), parse(32 zero bytes), P+(-P), n*G} x (z, s) boundary pairs (+fillers) x {r = x((z/s)G) mod n, the same with n-s, an honest signature of another key}: always rejected",
+        ),
+        Engine(
+            "real-scalars",
+            gen_real_scalars,
+            run_real_scalars,
+            kind="E1",
+            rule="secp256k1: valid tuples constructed for prescribed verification scalars (u, v) = (z/s, r/s): u in {0} + B, v in B, B = {1, 2, n-1, (n-1)/2, 2^128, 2^255} (thorough + {3, n-2, (n+1)/2, 2^64-1, 2^192}, keys {1, n-1, 2 fillers}; quick 1 filler key) with R = uG + vQ, r = x(R) mod n, s = r/v, z = u s; each with deviations {n-s, z^bit0, s+1, r+1, z+n when < 2^256} against the reference predicate; crafted u G == v Q (doubling inside verify) and u G == -v Q (sum at infinity, every s rejected)",
+        ),
+        Engine(
+            "key-history",
+            gen_key_history,
+            run_key_history,
+            kind="E2",
+            rule=f"explicit histories on ONE PrivateKey object and its point: every sequence of length <= 2 over {nops} operations ({', '.join(history_ops(tier))}) followed by sign(z): the signature is still the RFC 6979 signature of the original secret and the key's own point accepts it; keys with even and odd y (quick: odd-y key n-1 with all sequences of length <= 2 and even-y key 2 with length <= 1, 1 digest; thorough 6 keys x 3 digests, length <= 2); states = object states visited, transitions = operations executed",
+        ),
     ]
     return es
